@@ -126,6 +126,17 @@ pub fn run(ctx: &Ctx) -> Outcome {
         patterns.push(Concat(vec![Node::group(big(n)), Backref(1)]));
         patterns.push(Atomic(bx(Alt(vec![big(n), Node::lit("ab")]))));
     }
+    // one delegated run made of MANY adjacent easy pieces: the limit applies to the run as a whole
+    // (each child is far below a limit that the run exceeds many times over)
+    for k in [2u32, 6, 12] {
+        let mut v = vec![Look(bx(Node::class("[ab]")), false, false)];
+        for i in 0..32 {
+            v.push(Repeat(bx(Node::class(if i % 2 == 0 { "[ab]" } else { "[A-B]" })), k, Some(k), Mode::Greedy));
+        }
+        patterns.push(Concat(v.clone()));
+        v.push(Assert(A::WordB));
+        patterns.push(Concat(v));
+    }
     let texts = gen::texts(&["a", "A", "b", "B"], ctx.tier.pick(3, 3));
     let mut text_sets = vec![texts.clone()];
     let mut items: Vec<(Node, usize)> = patterns.into_iter().map(|p| (p, 0)).collect();
@@ -218,7 +229,8 @@ pub fn run(ctx: &Ctx) -> Outcome {
         let base = all(&plain);
         // (a) case_insensitive(true) == "(?i)" + P
         let inline = format!("(?i){}", s);
-        match (compile(&inline), compile_with(&s, |b| { b.case_insensitive(true); })) {
+        // (the builder is switched off and on again first: the last call decides)
+        match (compile(&inline), compile_with(&s, |b| { b.case_insensitive(false); b.case_insensitive(true); })) {
             (Got::Val(ri), Got::Val(rb)) => {
                 let (wi, wb) = (all(&ri), all(&rb));
                 compare(acc, "case-insensitive", json!({"case_insensitive": true}), &wi, &wb, &inline);
@@ -277,6 +289,9 @@ pub fn run(ctx: &Ctx) -> Outcome {
             ("case_insensitive(false)", json!({"case_insensitive": false}), Box::new(|b: &mut RegexBuilder| { b.case_insensitive(false); }) as Box<dyn Fn(&mut RegexBuilder)>),
             ("huge limits", json!({"backtrack_limit": "usize::MAX", "delegate_size_limit": "1<<30", "delegate_dfa_size_limit": "1<<30"}), Box::new(|b: &mut RegexBuilder| { b.backtrack_limit(usize::MAX).delegate_size_limit(1 << 30).delegate_dfa_size_limit(1 << 30); })),
             ("tiny dfa cache", json!({"delegate_dfa_size_limit": 0}), Box::new(|b: &mut RegexBuilder| { b.delegate_dfa_size_limit(0); })),
+            // setter sequences on one builder: the last call decides
+            ("case_insensitive(true) then (false)", json!({"sequence": "case_insensitive(true), case_insensitive(false)"}), Box::new(|b: &mut RegexBuilder| { b.case_insensitive(true); b.case_insensitive(false); })),
+            ("limits set and reset", json!({"sequence": "backtrack_limit(0), delegate_size_limit(1), then usize::MAX / 1<<30 again"}), Box::new(|b: &mut RegexBuilder| { b.backtrack_limit(0).delegate_size_limit(1).delegate_dfa_size_limit(1); b.backtrack_limit(usize::MAX).delegate_size_limit(1 << 30).delegate_dfa_size_limit(1 << 30); })),
         ] {
             match compile_with(&s, |b| f(b)) {
                 Got::Val(r) => {
@@ -300,7 +315,7 @@ pub fn run(ctx: &Ctx) -> Outcome {
             Route::Vm { delegates, .. } => delegates.iter().map(|d| d.replace("\\\\", "\\")).collect(),
             _ => vec![s.clone()],
         };
-        for limit in [1usize, 200, 5_000, 100_000] {
+        for limit in [1usize, 200, 1_000, 5_000, 20_000, 100_000] {
             // judge only far from the boundary: the oracle must agree with itself at limit/4 and 4*limit
             let verdicts: Vec<Option<bool>> = pieces.iter().map(|pc| {
                 let v: Vec<Option<bool>> = [limit / 4, limit, limit * 4].iter().map(|l| ra_rejects(pc, (*l).max(1))).collect();
@@ -356,7 +371,7 @@ pub fn run(ctx: &Ctx) -> Outcome {
     });
     let mut out = Outcome::new(acc);
     out.distinct_nontrivial = out.acc.distinct;
-    out.rule = format!("{} patterns: all trees of <= 4 nodes (thorough: plus a sixth of the 5-node trees) over a A b . [ab] [^a] [A-B] ^ \\b \\1 (?-i:a) (?i:b) with groups, atomic groups, look-arounds, 5 quantifier forms; context products; patterns with large delegated pieces (\\w{{n}} plain, before a look-ahead, around \\b, in a back-referenced group, in an atomic alternation); x {} texts over {{a,A,b,B}} x every offset (incl. letter-free trees over [0-_] [@-_] [_-~] [^!-_] [0-9] . \\b ^ -); plus {} patterns (trees of <= 3 nodes and context products) over k, LONG-S, the titlecase and lower-case DZ-WITH-CARON letters, sharp s, ks, (?-i:k), \\b, \\1 x all texts of <= 2 letters over their case orbits (k K KELVIN-SIGN s LONG-S and the three DZ letters, both sharp s). (a) case_insensitive(true) must give exactly the captures of \"(?i)\"+P; (e) case_insensitive(true) on P must also give the captures of P with both cases of every letter spelled out as classes and the flag groups dropped (an independent statement of what the flag means); (f) str::parse::<Regex>() and RegexBuilder::new(P).build() behave like Regex::new(P), as_str / Display give P back; (b) case_insensitive(false), huge limits and a zero DFA cache must not change anything; (c) delegate_size_limit(n) for n in {{1,200,5000,100000}}: the build must fail when regex-automata's own meta::Builder rejects a delegated piece (each Delegate pattern of the VM program, or the whole pattern) under nfa_size_limit(n) and succeed with unchanged results when it accepts all of them - judged only where the oracle gives the same verdict at n/4 and 4n; (d) backtrack_limit(0): plain patterns unchanged, fancy ones unchanged or BacktrackLimitExceeded. Non-trivial: distinct patterns whose results change under case_insensitive(true).", items.len() - n_fold, texts.len(), n_fold);
+    out.rule = format!("{} patterns: all trees of <= 4 nodes (thorough: plus a sixth of the 5-node trees) over a A b . [ab] [^a] [A-B] ^ \\b \\1 (?-i:a) (?i:b) with groups, atomic groups, look-arounds, 5 quantifier forms; context products; patterns with large delegated pieces (\\w{{n}} plain, before a look-ahead, around \\b, in a back-referenced group, in an atomic alternation); x {} texts over {{a,A,b,B}} x every offset (incl. letter-free trees over [0-_] [@-_] [_-~] [^!-_] [0-9] . \\b ^ -); plus {} patterns (trees of <= 3 nodes and context products) over k, LONG-S, the titlecase and lower-case DZ-WITH-CARON letters, sharp s, ks, (?-i:k), \\b, \\1 x all texts of <= 2 letters over their case orbits (k K KELVIN-SIGN s LONG-S and the three DZ letters, both sharp s). (a) case_insensitive(true) must give exactly the captures of \"(?i)\"+P; (e) case_insensitive(true) on P must also give the captures of P with both cases of every letter spelled out as classes and the flag groups dropped (an independent statement of what the flag means); (f) str::parse::<Regex>() and RegexBuilder::new(P).build() behave like Regex::new(P), as_str / Display give P back; (b) case_insensitive(false), huge limits and a zero DFA cache must not change anything; (c) delegate_size_limit(n) for n in {{1,200,1000,5000,20000,100000}} (incl. runs of 32 adjacent easy pieces): the build must fail when regex-automata's own meta::Builder rejects a delegated piece (each Delegate pattern of the VM program, or the whole pattern) under nfa_size_limit(n) and succeed with unchanged results when it accepts all of them - judged only where the oracle gives the same verdict at n/4 and 4n; (d) backtrack_limit(0): plain patterns unchanged, fancy ones unchanged or BacktrackLimitExceeded. Non-trivial: distinct patterns whose results change under case_insensitive(true).", items.len() - n_fold, texts.len(), n_fold);
     out.assumptions = vec!["regex-automata is the oracle for 'exceeds the size limit'; pieces are read from Regex::debug_print".into()];
     let (cv, ci, rv, rw) = (out.acc.get("casei-changes-results:vm"), out.acc.get("casei-changes-results:with-inner-(?-i"), out.acc.get("size-limit-rejections:vm"), out.acc.get("size-limit-rejections:wrapped"));
     out.extra = json!({"casei_changes_results_vm": cv, "with_inner_minus_i": ci, "size_limit_rejections": {"vm": rv, "wrapped": rw}});
